@@ -40,6 +40,7 @@ func checkC04(c *Ctx) {
 		ruleFieldCorrespondenceFor(c, pf, tomlLeaves(c), "R4.8b", func(dest string) bool { return strings.HasPrefix(dest, "Defaults.") })
 	}
 	c.importRules(emulationReachRules, []string{"R8.9a"}, "R4.10") // an action emulated by an axis always sees its release: a swallowed release leaves the action tracked and the next opposite press is taken for a pair
+	ruleAxisNoSelfPair(c, dv, "R4.12")                             // an axis flicked from one side to the other moves its parameter by one: it is not a pair with itself
 	ruleDispatch(c, dv, "R4.9", true, false)                       // an action key press that never reaches the key handler changes nothing
 	c.MinCount("R4.7", 4)
 	c.MinCount("R4.8", 5)
@@ -807,4 +808,72 @@ func defaultsSource(v ssa.Value) (string, int64, bool) {
 		}
 	}
 	return "", 0, false
+}
+
+// ruleAxisNoSelfPair: R4.12. An axis that emulates an up/down pair of actions has one direction engaged at a time. Pair
+// detection (checkDoubleActions) must therefore never run at a moment when the handler has already recorded the direction
+// the axis has just reached but not yet forgotten the direction it has just left: a flick from one side to the other
+// (no report at the centre in between - the input layer hands on the latest position only) would be taken for a held pair
+// and reset the parameter instead of moving it by one. Decided on the paths of the axis handler's action case: at every
+// call of the pair detection, either nothing was recorded on this path yet, or the opposite direction was removed first.
+func ruleAxisNoSelfPair(c *Ctx, dv *dev, rule string) {
+	fn := dv.fn["handleABSEvent"]
+	cda := dv.fn["checkDoubleActions"]
+	if fn == nil || cda == nil {
+		return
+	}
+	paths, err := absPaths(c, dv)
+	if !c.Require(err == nil, rule, "device.handleABSEvent", fmt.Sprint(err)) {
+		return
+	}
+	actionSim, _ := c.P.constString(pkgConfig, "AnalogActionSim")
+	pos := c.P.Pos(fn.Pos())
+	n, calls, bad, badPos := 0, 0, "", pos
+	opposite := func(k string) string {
+		switch {
+		case strings.HasSuffix(k, ".ActionNeg"):
+			return strings.TrimSuffix(k, "Neg")
+		case strings.HasSuffix(k, ".Action"):
+			return k + "Neg"
+		}
+		return ""
+	}
+	for _, p := range paths {
+		if sel, _ := mappingTypeOf(p); sel != actionSim {
+			continue
+		}
+		n++
+		recorded := map[string]bool{}
+		for _, e := range p.Effects {
+			switch e.Kind {
+			case "mapset":
+				if len(e.Args) == 3 && strings.HasSuffix(strings.SplitN(e.Args[0].String(), "@", 2)[0], "d.actionTracker") {
+					recorded[e.Args[1].String()] = true
+				}
+			case "mapdel":
+				if len(e.Args) >= 2 && strings.HasSuffix(strings.SplitN(e.Args[0].String(), "@", 2)[0], "d.actionTracker") {
+					delete(recorded, e.Args[1].String())
+					recorded["-"+e.Args[1].String()] = true
+				}
+			case "call":
+				if e.Callee != cda {
+					continue
+				}
+				calls++
+				for k := range recorded {
+					if strings.HasPrefix(k, "-") {
+						continue
+					}
+					if o := opposite(k); o != "" && !recorded["-"+o] && bad == "" {
+						bad = fmt.Sprintf("pair detection runs after the axis recorded %s as held and before it forgot %s: crossing from one side to the other without a report at the centre is taken for a held up/down pair and resets the parameter instead of moving it by one", k, o)
+						badPos = c.P.Pos(e.Instr.Pos())
+					}
+				}
+			}
+		}
+	}
+	if !c.Require(n > 0, rule, "device.handleABSEvent/action-case", "no path of the action case found") {
+		return
+	}
+	c.Check(bad == "", rule, "device.handleABSEvent/an-axis-makes-no-pair-with-itself", badPos, fmt.Sprintf("%d path(s) of the action case, %d call(s) of the pair detection: none between recording one direction and forgetting the other", n, calls), bad)
 }
